@@ -16,7 +16,7 @@ OK = "(schemaOk_of_K _ (family_det _ {hS}) (family_fillOk _ {hS}))"
 GUARDS = [
     (r"compatTransB S = true", "(family_compatTrans _ {hS})"),
     (r"TextLoop S", "(textLoop_of_B _ (family_textLoop _ {hS}))"),
-    (r"detB (P\.)?S = true", "(family_det _ {hS})"),
+    (r"(PM\.C11\.)?detB (P\.)?S = true", "(family_det _ {hS})"),
     (r"S\.fillersOKB = true", "(family_fillersOK _ {hS})"),
     (r"S\.wrapOKB = true", "(family_wrapOK _ {hS})"),
     (r"S\.labelsOKB = true", "(family_labelsOK _ {hS})"),
@@ -46,7 +46,10 @@ TARGETS = {
             "family_step", "family_history_undo", "family_history_undo_run", "opHistory_undo", "structHistory_undo_bmp",
             "structHistory_undo_bmp'", "mixedHistory_undo_bmp",
             "delete_residual", "delete_residual_around", "insertInline_residual", "insertInline_residual_around",
-            "replace_residual_of_inv", "replace_residual", "replace_residual_cut"],
+            "replace_residual_of_inv", "replace_residual", "replace_residual_cut",
+            "replaceOp_residual", "editHistory_undo_bmp", "editResidual_of'", "editHistory_undo_bmp'",
+            "fit_around_gapFitsBack", "editResidual'_of_hyps", "editHistory_undo", "deleteOp_residual",
+            "insertInlineOp_residual"],
     "C11": ["fitStep_decreases", "fitLoop_outOfFuel_exact", "fitLoop_terminates", "replaceStep_outOfFuel_cycle",
             "replaceStep_not_outOfFuel", "fit_no_internal_partial", "replaceStep_total_partial", "delete_total",
             "delete_total_respects", "deleteRange_total", "insertInline_total", "fit_emits_wf", "coherent_invariant",
